@@ -40,3 +40,17 @@ Theorem c03_expired_sub_removed : forall now s,
   cs_registered (cleanup_csub now s) = false.
 Proof. exact cleanup_expired_sub. Qed.
 Print Assumptions c03_expired_sub_removed.
+
+(* ---------- through the handlers (Model/Api.v) ---------- *)
+From KD Require Model.Api Proofs.Api.
+
+(* a kuksa.val.v1 subscription is opened only if every selected signal is readable by the subscriber; it is then
+   the core subscription of exactly those signals, to which the theorems above apply *)
+Theorem c03_v1_subscribe_only_readable : forall st p path fl st' h,
+  Api.v1_subscribe st p path fl = (st', inl h) ->
+  exists es, Api.v1_sub_entries st p path fl = inl es /\ subscribe st p es None = (st', inl h) /\
+             forall id f, In (id, f) es ->
+               exists e, In (id, e) (entries (st_db st)) /\ f = fl /\
+                         can_read p (st_now st) (path_segs (e_meta e)) = POk.
+Proof. exact Proofs.Api.v1_subscribe_only_readable. Qed.
+Print Assumptions c03_v1_subscribe_only_readable.
